@@ -197,6 +197,14 @@ def behavioural_property(st, name):
         got = exc
     if not ok:
         st.violation("unusable:value-not-readable", "property name %r (attribute %r): read back %r" % (name, py, got), case)
+    try:
+        text = serialize_python(model)
+        gns = {"__builtins__": __builtins__}
+        exec(compile(text, "<generated>", "exec"), gns)
+        if not (gns.get("T") == model) or list(gns["T"].properties) != [py]:
+            st.violation("generated-class-differs", "property name %r (attribute %r): the generated class has attributes %s and is %sequal to the parsed model" % (name, py, list(gns["T"].properties) if "T" in gns else None, "" if gns.get("T") == model else "not "), {**case, "module": text[:500]})
+    except Exception as exc:
+        st.violation("generated-module-broken:%s" % type(exc).__name__, "property name %r (attribute %r): %r" % (name, py, exc), case)
     k3, _ = impl.do_call(model, {name: 1})
     if k3 == impl.ACCEPT:
         st.violation("unusable:property-schema-ignored", "property name %r: the property's own schema is not applied" % name, case)
@@ -409,7 +417,7 @@ def work(item):
         st.sample({"pairs_over": len(set(names))})
     elif item[0] == "titles":
         titles = [chr(c) for c in range(0x20, 0x100)] + ["A" + chr(c) + "b" for c in range(0x20, 0x100)] + [chr(c) + "Abc" for c in range(0x20, 0x100)]
-        titles += sorted(MODULE_NAMES) + [n.lower() for n in sorted(MODULE_NAMES)] + list(keyword.kwlist) + ["1abc", "123", "a1", "foo bar", "fooBar", "FooBAR", "foo_bar", "Foo-Bar", "  x  ", "x.y", "Child", "child", "T", "_", "__init__", "Élan", "naïve", "日本", "ﬁle"]
+        titles += sorted(MODULE_NAMES) + [n.lower() for n in sorted(MODULE_NAMES)] + list(keyword.kwlist) + ["1abc", "123", "a1", "foo bar", "fooBar", "FooBAR", "foo_bar", "Foo-Bar", "  x  ", "x.y", "Child", "child", "T", "_", "__init__", "Élan", "naïve", "日本", "ﬁle", "Foo_²", "Foo_1", "Foo_01", "Object_1", "object_2", "é_1", "1_1", "_1", "Foo__1", "A_1_2"]
         titles += ["T" + c for c in category_representatives()]
         for n, t in enumerate(titles):
             if n % item[2] != item[1]:
